@@ -87,7 +87,10 @@ def build(rng):
         whole = 'nope | ' + expr
         off2 = src.index(whole)
         text, line, col = whole, 1 + src[:off2].count('\n'), off2 - (src[:off2].rfind('\n') + 1)
-    return {'src': src, 'exc': exc, 'record': [text, line, col], 'label': label, 'nontrivial': bool(pre) or label in ('inside repeat', 'define-after-semicolon') or 'macro' in label}
+    # line endings: positions refer to the text with UNIX newlines (what is tokenised in non-XML mode)
+    eol = rng.choice(['\n', '\n', '\n', '\r\n', '\r'])
+    return {'src': src.replace('\n', eol), 'exc': exc, 'record': [text, line, col], 'label': label,
+            'nontrivial': bool(pre) or label in ('inside repeat', 'define-after-semicolon') or 'macro' in label}
 
 
 def run(case, files=None):
